@@ -207,18 +207,31 @@ def viable_prefixes(alphabet, depth):
                     not o.msg.startswith('Unterminated')
                 rdead = r.verdict == 'reject' and not r.at_eof and \
                     not r.reason.startswith('lex:unterminated')
-                flags.append(not (idead and rdead))
+                disputed = (
+                    (o.kind == 'accept' and r.verdict == 'accept' and
+                     o.tree != r.neutral) or
+                    (o.kind == 'accept' and r.verdict == 'reject') or
+                    (r.verdict == 'accept' and o.kind == 'reject'
+                     and not o.eof))
+                flags.append((not (idead and rdead), disputed))
             return flags
         res = pmap(work, cands)
         n = len(res)
         nxt = []
         for i, flags in enumerate(res):
-            for p, f in zip(cands[i::n], flags):
+            for p, (f, disp) in zip(cands[i::n], flags):
                 if f:
                     nxt.append(p)
+                if disp:
+                    DISPUTED.add(p)
         layer = sorted(nxt)
         out.extend(layer)
     return out
+
+
+# prefixes on which the two parsers already disagree as complete programs:
+# whatever follows is not a statement about the slash (C03/C04's business)
+DISPUTED = set()
 
 
 def run(tier, rep):
@@ -232,11 +245,15 @@ def run(tier, rep):
         rep.space('S1-viable(%s,%d)' % (name, depth), lexemes=len(alpha),
                   prefixes=len(pre))
         rep.add(states=len(pre))
+        nd = 0
         for p in pre:
+            if p in DISPUTED:
+                nd += 1
+                continue
+            d0 = len(p)
             base = trie.render(alpha, p)
-            for gn, g in (GAPS if name == 'A' or tier != 'quick' else GAPS_Q):
-                for tn, t in (TAILS if name == 'A' or tier != 'quick'
-                              else TAILS_Q):
+            for gn, g in (GAPS if name == 'A' and d0 <= 2 else GAPS_Q):
+                for tn, t in (TAILS if name == 'A' and d0 <= 2 else TAILS_Q):
                     if not base and gn != 'none':
                         head = g
                     else:
@@ -265,6 +282,27 @@ def run(tier, rep):
     rep.space('named-contexts', contexts=len(CONTEXTS), texts=nctx)
     # S2 programs with a regex / a division planted after every lexeme
     progs = G.programs(1) if tier == 'quick' else G.programs(2)[::3]
+    # programs on which the two parsers disagree without any planted slash
+    # are C03's business
+
+    def agree(chunk, idx):
+        out = []
+        for lex in chunk:
+            t = G.render(lex)
+            o = I.run_parse(t)
+            r = R2.parse(t)
+            out.append(o.kind == 'accept' and r.verdict == 'accept' and
+                       o.tree == r.neutral)
+        return out
+    flags = []
+    res = pmap(agree, progs)
+    flags = [None] * len(progs)
+    for i, fl in enumerate(res):
+        flags[i::len(res)] = fl
+    nskip = sum(1 for f in flags if not f)
+    progs = [p for p, f in zip(progs, flags) if f]
+    rep.space('planted-in-S2', programs=len(progs),
+              skipped_disputed_programs=nskip)
     for lex in progs:
         for i in range(1, len(lex) + 1):
             head = ' '.join(lex[:i])
